@@ -378,7 +378,7 @@ def _typed_replacements(ctx):
     'operand types agree' therefore needs new.ty is old.ty at every call.  Each call site in ppci/opt is decided by the
     idiom that establishes the type on that site; a site matching no idiom is a failed obligation."""
     from .. import sym
-    ctx.rule("C03.R9", "type-preserving replacement: at every `old.replace_by(new)` of an optimisation pass the code itself establishes new.ty is old.ty (operand of the replaced binop, constructed with old.ty, found by a type-guarded search, looked up under a key that contains the type, or promoted only when all loads and stores agree)", floor=6)
+    ctx.rule("C03.R9", "type-preserving replacement: at every `old.replace_by(new)` of an optimisation pass the code itself establishes new.ty is old.ty (operand of the replaced binop, incoming value of the replaced phi, constructed with old.ty, found by a type-guarded search, looked up under a key that contains the type, or promoted only when all loads and stores agree)", floor=6)
     project = ctx.project
     sites = []
     for rel, mod in sorted(project.modules.items()):
@@ -412,6 +412,9 @@ def _typed_replacements(ctx):
         # I1: an operand of the replaced binary operation (the verifier guarantees a.ty is b.ty is ty on well-formed input)
         if new in (old + ".a", old + ".b") and any(g in ("type(%s) is ir.Binop" % old, "isinstance(%s, ir.Binop)" % old) for g in guards):
             ok, how = True, "operand of the replaced ir.Binop"
+        # I7: an incoming value of the replaced phi (the verifier guarantees value.ty is phi.ty on well-formed input)
+        elif (new.startswith(old + ".get_value(") or new.startswith(old + ".inputs[")) and any(isinstance(a, (ast.For, ast.comprehension)) and norm(a.target) == old and norm(a.iter).endswith(".phis") for a in _anc(c)):
+            ok, how = True, "incoming value of the replaced phi"
         # I2: constructed with the old value's type
         elif isinstance(binding, ast.Call) and norm(binding.func) in ("ir.Phi", "ir.Const", "ir.Undefined") and binding.args and old + ".ty" in (norm(binding.args[-1]), norm(sym.nearest_def(c, binding.args[-1].id) or binding.args[-1]) if isinstance(binding.args[-1], ast.Name) else ""):
             ok, how = True, "constructed as %s(..., %s.ty)" % (norm(binding.func), old)
